@@ -30,7 +30,9 @@ def script_text(df, ver, rule):
     lines = ['# %s version %d (generated)' % (df, ver),
              'rd() { if [ -e "$1" ]; then tr -d "~" < "$1"; else printf "@none.0()"; fi; }',
              'vpad() { if [ "${VT_PAD:-0}" -gt 0 ]; then head -c "$VT_PAD" /dev/zero | tr "\\0" "~"; fi; }',
+             'vjit() { if [ -n "${VT_JITTER:-}" ]; then _j=$(od -An -N1 -tu1 /dev/urandom); sleep 0.0$((_j % 4))$((_j % 7)); fi; }',
              'echo "start $1" >> "$VT_LOG"',
+             'vjit',
              'case "$1" in']
     for t, ops in rule.items():
         lines.append('  %s)' % shquote(t))
@@ -38,7 +40,7 @@ def script_text(df, ver, rule):
             op = o['op']
             args = ' '.join(shquote(a) for a in o['args'])
             if op == 'ifchange':
-                lines.append('    redo-ifchange %s' % args)
+                lines.append('    redo-ifchange %s; vjit' % args)
             elif op == 'ifcreate':
                 lines.append('    redo-ifcreate %s' % args)
             elif op == 'watch':
@@ -96,7 +98,7 @@ def stamp_of(path):
 
 
 class Project:
-    def __init__(self, prog, root, bindir, trace=None, log_mode=None, pad=0, watch=False):
+    def __init__(self, prog, root, bindir, trace=None, log_mode=None, pad=0, watch=False, jitter=False):
         self.prog = prog
         self.root = root
         self.bindir = bindir
@@ -105,6 +107,7 @@ class Project:
         self.pad = pad                  # bytes of padding appended to every script output (size class)
         self.watch = watch              # poll the plain files while a command runs (no partial target)
         self.observed = {}              # name -> set of (text, padlen) seen by the reader thread
+        self.jitter = jitter            # scripts sleep 0-36 ms at random points (schedule variety)
         self.dir = os.path.join(root, 'p')
         self.vtlog = os.path.join(root, 'vt.log')
         self.files = list(prog['plain']) + list(prog['rules'])
@@ -153,6 +156,10 @@ class Project:
         env['VT_LOG'] = self.vtlog
         env['VT_GATES'] = os.path.join(self.root, 'gates')
         env['VT_PAD'] = str(self.pad)
+        if self.jitter:
+            env['VT_JITTER'] = '1'
+        else:
+            env.pop('VT_JITTER', None)
         if self.trace:
             env['REDO_VERIF_TRACE'] = self.trace
         if self.log_mode is not None:
@@ -336,7 +343,7 @@ def step_input(step):
     """the user-visible input part of a history step"""
     a = step['a']
     if a == 'cmd':
-        return ('cmd', step['kind'], tuple(step['targs']), bool(step['keep']))
+        return ('cmd', step['kind'], tuple(step['targs']), bool(step['keep']), step.get('j', 1))
     if a == 'query':
         return ('query', step['kind'])
     return (a, step['n'], step.get('v'))
@@ -347,12 +354,12 @@ def history_input(h):
 
 
 def replay_group(prog, alts, root, bindir, trace=None, log_mode=None, jflag=None, cmd_timeout=60, cats=None,
-                 pad=0, watch=False):
+                 pad=0, watch=False, jitter=False):
     """Execute one user-level history.  `alts` are all specification behaviours with that
     input (they differ where the implementation is legitimately nondeterministic, e.g. the
     poll order of wait_for); the real execution must agree, step by step, with at least one.
     Returns (ok, report)."""
-    pj = Project(prog, root, bindir, trace=trace, log_mode=log_mode, pad=pad, watch=watch)
+    pj = Project(prog, root, bindir, trace=trace, log_mode=log_mode, pad=pad, watch=watch, jitter=jitter)
     report = []
     live = list(alts)
     direct = any(o['op'] == 'out' and o['ch'] == 'direct' for vers in prog['rules'].values()
@@ -374,8 +381,8 @@ def replay_group(prog, alts, root, bindir, trace=None, log_mode=None, jflag=None
             argv = ['redo-ifchange' if step['kind'] == 'ifchange' else 'redo']
             if step['keep'] and step['kind'] == 'redo':
                 argv.append('-k')
-            if jflag and step['kind'] == 'redo':
-                argv.append('-j%d' % jflag)
+            if step.get('j', 1) > 1 and step['kind'] == 'redo':
+                argv.append('-j%d' % step['j'])
             argv += list(step['targs'])
             extra = {'REDO_KEEP_GOING': '1'} if step['keep'] else {}
             pre = pj.snapshot()['files'] if watch else None
